@@ -18,7 +18,10 @@ RULE = ("cluster cases: 1-3 node in-memory clusters, 2-3 index groups (index + 1
         "included), explicit-commit and auto-commit, 1-4 frames of unequal length per group (so channels on different "
         "nodes end at different times), frames that skip a leaseholder, frames carrying a key mask (KeepKeys / ExcludeKeys over whole index groups and "
         "virtual channels, incl. nothing and everything), a share of malformed requests (unknown key at "
-        "open, key outside the writer in a frame); afterwards, on EVERY node: SeekFirst+Next(span)*, SeekLast+Prev(span)*, "
+        "open, key outside the writer in a frame); scripted transport faults on 2-3 node clusters (before 30% of the "
+        "writers: 1-3 opens on the same channels through a node whose writer transport client cannot reach one of the "
+        "leaseholders at that moment — expected: error, nothing left behind — then the healthy writer through any node; "
+        "the reference store never sees the failed opens); afterwards, on EVERY node: SeekFirst+Next(span)*, SeekLast+Prev(span)*, "
         "SeekGE/SeekLE+steps, SetBounds after open followed by a new seek and steps, Next/Prev(AutoSpan) with a chunk "
         "size, Valid — traversals (also with narrowed bounds) through the cluster iterator, each node's own storage "
         "iterator on its own channels, a full read of every channel from every node's engine, and the same writes and "
@@ -29,20 +32,24 @@ RULE = ("cluster cases: 1-3 node in-memory clusters, 2-3 index groups (index + 1
         "by hash.")
 TRUSTED = ["hooks core/pkg/distribution/framer/{writer,iterator}/export_verif.go (VerifNewSynchronizer = the package's "
            "synchronizer.sync as a function)",
-           "mock cluster of core/pkg/distribution/mock (real framer services, mock transports, cesium on memory FS); the "
+           "mock cluster of core/pkg/distribution/mock (real framer services, mock transports, cesium on memory FS; the framer "
+           "transports are the stock in-memory networks assembled by the harness with one middleware on each node's "
+           "writer client that refuses streams to the currently blocked address); the "
            "reference single store is a real stand-alone cesium DB given the same channel definitions, writes and "
            "iterator commands",
            "what each channel's storage iterator answers is an input of the model (observed on the nodes' engines)"]
 ASSUMES = ["channel metadata has reached every node before the script starts (the harness waits for it)",
            "after a REJECTED frame the harness waits until the failed writer's leaseholders have released their storage "
            "writers before going on (without the wait: known finding F90)",
-           "writers are used one request at a time; transport failures and node death during a write are outside the property",
+           "writers are used one request at a time; the only transport fault is an unreachable leaseholder while a writer is "
+           "opened (after a failed open the harness waits until the peers already dialed released their storage writers); "
+           "transport failures and node death during a write are outside the property",
            "Sync=false writers (per-write acknowledgements are not requested)"]
 PARTIAL = None
 FREE = 4095
 
 DRES = {"": "DOk", "missing": "DMissing", "invalid_key": "DInvalidKey", "empty_keys": "DEmptyKeys",
-        "no_writer": "DNoWriter"}
+        "no_writer": "DNoWriter", "unreachable": "DUnreachable"}
 IRES = {"": "IOk", "free_key": "IFreeKey", "not_found": "INotFound", "empty_keys": "IEmptyKeys"}
 
 
@@ -100,6 +107,23 @@ def gen_cluster(rng, idx):
         bogus = []
         if rng.random() < 0.06:
             bogus = [rng.choice([(1 << 20) + 900, (2 << 20) + 77, 55])]
+        if n >= 2 and not bogus and rng.random() < 0.3:
+            # transport fault: a node cannot reach one of the leaseholders while it opens a writer on these
+            # channels (1-3 attempts: the order in which the peers are dialed is not fixed). The open must fail
+            # and leave nothing behind for the healthy writer that follows, opened through any node.
+            peers = sorted({g["node"] for g in use})
+            fgw = rng.choice([x for x in gws if len([q for q in peers if q != x]) >= min(2, len(peers))] or gws)
+            for _a in range(rng.choice([1, 2, 3])):
+                cand = [q for q in peers if q != fgw]
+                cut = rng.choice(cand) if cand and rng.random() < 0.9 else rng.choice(gws)
+                script.append({"op": "open", "w": wid, "gw": fgw, "cut": cut, "chans": chans, "bogus": [],
+                               "start": now, "auto": auto})
+                if rng.random() < 0.15:
+                    script.append({"op": "commit", "w": wid})
+                script.append({"op": "close", "w": wid})
+                wid += 1
+            if rng.random() < 0.5:
+                gw = rng.choice(gws)
         script.append({"op": "open", "w": wid, "gw": gw, "chans": chans, "bogus": bogus, "start": now, "auto": auto})
         if bogus:
             wid += 1
@@ -231,6 +255,9 @@ def _keys_of(case, r, names):
 
 def c_op(case, r, o, out):
     k = o["op"]
+    if k == "open" and o.get("cut"):
+        return "(OpenCut %s %s %s %s %s)" % (cN(o["w"]), cN(o["gw"]), cN(o["cut"]), clist([cN(x) for x in out["keys"]]),
+                                             cbool(o["auto"]))
     if k == "open":
         return "(OpenW %s %s %s %s)" % (cN(o["w"]), cN(o["gw"]), clist([cN(x) for x in out["keys"]]), cbool(o["auto"]))
     if k == "write":
@@ -331,6 +358,8 @@ def histogram(case, r):
             ks.append("gateway=%d" % o["gw"])
             if o["auto"]:
                 ks.append("auto_commit")
+            if o.get("cut"):
+                ks.append("transport_fault=%s" % (out["err"] or "not_hit"))
     for v in case["virt"]:
         ks.append("virt=%s" % ("free" if v["node"] == FREE else "leased"))
     for io in r["iters"] or []:
@@ -444,7 +473,9 @@ LEVEL_TEXT = ("Machine-checked Coq theorems over an executable Gallina copy of t
               "placements (the leaseholder is part of the key), ALL gateways and ALL scripts each leaseholder ends up "
               "with exactly the samples a single store holds for its channels, no other node holds any, and every "
               "request gets the single store's result (C07_location_transparent, by a refinement relation inductive "
-              "over opens/writes/commits/closes incl. auto-commit and rejected frames); unknown or free keys do not "
+              "over opens/writes/commits/closes incl. auto-commit and rejected frames); a writer open that fails because a "
+              "leaseholder is unreachable changes nothing and any script runs as the script without such opens "
+              "(C07_unreachable_open_no_effect); unknown or free keys do not "
               "open; the commit acknowledgement is forwarded exactly once and only after all |leaseholders| responses "
               "(C07_commit_ack_after_all); for every answer the channels' storage iterators may give, the cluster "
               "iterator returns the same entries (permutation) and the same acknowledgement as one storage iterator "
@@ -456,7 +487,7 @@ LEVEL_TEXT = ("Machine-checked Coq theorems over an executable Gallina copy of t
 LEVEL_NOTE = ("Trusted: Coq kernel/vm_compute; hand-written model tied by correspondence; harness, two tiny add-only hook "
               "files, generator; the reference store is the real cesium, so 'what a single-node store would return' is "
               "not modelled but executed. What a channel's storage iterator answers is a parameter of the iterator "
-              "theorem (nothing depends on a cesium read model). Not modelled: transport failures / peer death, control "
+              "theorem (nothing depends on a cesium read model). Not modelled: transport failures other than an unreachable leaseholder at writer open / peer death, control "
               "authority conflicts between concurrent writers, Sync=true per-write acknowledgements, relay streaming of "
               "free/virtual channels, the End value cesium reports. Observation outside the statement, left unchanged: "
               "the WRITER synchronizer forwards the last response instead of the accumulated one, so Commit() returns "
